@@ -53,6 +53,8 @@ func genC17(p *sim.Plan, r *sim.Rand, tier string) {
 	switch p.Mode {
 	case "matrix":
 		p.Set("order_seed", int64(r.U64()>>1))
+		// how the closed session ended: closed by the server, CLOSE packet of the peer, transport error
+		p.Set("close_how", int64(r.Intn(3)))
 		p.Horizon = int64(10 * time.Minute)
 	case "closerace":
 		n := r.Range(2, 12)
@@ -115,12 +117,25 @@ func runC17Matrix(e *sim.Env) {
 		return
 	}
 	sides := es.Sides()
-	for _, s := range sides {
-		if s.Socket.ID() == closed.SID {
-			s.Socket.Close()
+	switch p.C("close_how") {
+	case 1:
+		raw.Post(closed.SID, []byte("1"), false)
+	case 2:
+		raw.Post(closed.SID, []byte("z-not-a-packet"), false)
+	default:
+		for _, s := range sides {
+			if s.Socket.ID() == closed.SID {
+				s.Socket.Close()
+			}
 		}
 	}
 	time.Sleep(100 * time.Millisecond)
+	for _, s := range sides {
+		if _, cl, _, _, _ := s.Snapshot(); s.Socket.ID() == closed.SID && len(cl) == 0 {
+			e.Violate("C17/setup", "matrix", "the session to be closed (close_how=%d) did not close", p.C("close_how"))
+			return
+		}
+	}
 	raw.Poll(closed.SID) // drain whatever the close left
 	var liveSide *world.EIOSide
 	for _, s := range sides {
